@@ -690,9 +690,12 @@ func (un *Unit) execAppend(fr *Frame, st *State, c *ssa.CallCommon, args []Val, 
 	st0 := c.Args[0].Type().Underlying().(*types.Slice)
 	et := st0.Elem()
 	a, b := args[0].t, args[1].t
+	if isStructType(et) && flatStruct(et) {
+		return un.execAppendStructs(st, et, a, b)
+	}
 	if isStructType(et) {
-		// slices of structs: the result is modelled abstractly - a fresh backing array of the right length whose
-		// elements are unconstrained (their contents are not copied in the model; an over-approximation)
+		// slices of structs with nested struct fields: the result is modelled abstractly - a fresh backing array of the
+		// right length whose elements are unconstrained (their contents are not copied in the model)
 		arr2 := un.allocRef(st, "append")
 		newLen := "(+ (s_len " + a + ") (s_len " + b + "))"
 		cap2 := un.u.freshConst("newcap", "Int")
@@ -742,6 +745,60 @@ func (un *Unit) execAppend(fr *Frame, st *State, c *ssa.CallCommon, args []Val, 
 	un.addFact(implies(fits, fmt.Sprintf("(forall ((%s Int)) (=> (or (< %s (+ (s_off %s) (s_len %s))) (>= %s (+ (s_off %s) %s))) (= (select %s %s) (select %s %s))))",
 		qi, qi, a, a, qi, a, newLen, newArr, qi, srcA, qi)))
 	un.set(st, ec, sto(old, newArr, "(s_arr "+res+")"))
+	return Val{t: res}
+}
+
+// flatStruct: a struct type none of whose fields is itself a struct (its elements in a slice are addressed by one
+// element reference per index, every field in its own heap component)
+func flatStruct(t types.Type) bool {
+	stt, ok := t.Underlying().(*types.Struct)
+	if !ok {
+		return false
+	}
+	for i := 0; i < stt.NumFields(); i++ {
+		if isStructType(stt.Field(i).Type()) {
+			return false
+		}
+	}
+	return true
+}
+
+// execAppendStructs: append(a, b...) on slices of flat structs. As for scalar elements the result either grows in place
+// (the new elements land in a's backing array, visible through every slice that shares it) or moves to a fresh array;
+// every field of the elements is copied, everything else keeps its value.
+func (un *Unit) execAppendStructs(st *State, et types.Type, a, b string) Val {
+	newLen := "(+ (s_len " + a + ") (s_len " + b + "))"
+	fits := "(<= " + newLen + " (s_cap " + a + "))"
+	arr2 := un.allocRef(st, "append")
+	res := un.u.freshConst("appended", "g_Slice")
+	cap2 := un.u.freshConst("newcap", "Int")
+	un.addFact("(>= " + cap2 + " " + newLen + ")")
+	un.addFact(eq(res, ite(fits, "(mk_slice (s_arr "+a+") (s_off "+a+") "+newLen+" (s_cap "+a+"))", "(mk_slice "+arr2+" 0 "+newLen+" "+cap2+")")))
+	stt := et.Underlying().(*types.Struct)
+	un.u.usesQuant = true
+	q := "q_ap!" + fmt.Sprint(un.u.fresh)
+	un.u.fresh++
+	r := "q_apr!" + fmt.Sprint(un.u.fresh)
+	un.u.fresh++
+	dst := un.elemRef("(s_arr "+res+")", "(+ (s_off "+res+") "+q+")")
+	srcA := un.elemRef("(s_arr "+a+")", "(+ (s_off "+a+") "+q+")")
+	srcB := un.elemRef("(s_arr "+b+")", "(+ (s_off "+b+") (- "+q+" (s_len "+a+")))")
+	for i := 0; i < stt.NumFields(); i++ {
+		c, _ := un.fieldComp(et, i)
+		old := un.get(st, c)
+		fresh := un.u.freshConst("app_"+stt.Field(i).Name(), un.compSort[c])
+		un.addFact(fmt.Sprintf("(forall ((%s Int)) (! (=> (and (<= 0 %s) (< %s (s_len %s))) (= (select %s %s) (select %s %s))) :pattern ((select %s %s))))",
+			q, q, q, a, fresh, dst, old, srcA, fresh, dst))
+		un.addFact(fmt.Sprintf("(forall ((%s Int)) (! (=> (and (<= (s_len %s) %s) (< %s %s)) (= (select %s %s) (select %s %s))) :pattern ((select %s %s))))",
+			q, a, q, q, newLen, fresh, dst, old, srcB, fresh, dst))
+		// frame: a location that is not one of the written elements keeps its value (in the fresh-array case nothing
+		// that existed before is written at all)
+		written := fmt.Sprintf("(and (= (g_kind %s) 2) (= (g_elem_arr %s) (s_arr %s)) (or (not %s) (and (>= (g_elem_idx %s) (+ (s_off %s) (s_len %s))) (< (g_elem_idx %s) (+ (s_off %s) %s)))))",
+			r, r, res, fits, r, res, a, r, res, newLen)
+		un.addFact(fmt.Sprintf("(forall ((%s Int)) (! (=> (not %s) (= (select %s %s) (select %s %s))) :pattern ((select %s %s))))",
+			r, written, fresh, r, old, r, fresh, r))
+		un.set(st, c, fresh)
+	}
 	return Val{t: res}
 }
 
